@@ -39,7 +39,7 @@ FAMILIES = ['atom-massrho', 'mass-massrho', 'atom-atomrho', 'natural',
             'suffixes', 'keywords', 'many-entries', 'exponents', 'heavy-z',
             'two-densities', 'repeated-nuclide', 'same-value-spellings',
             'mixed-signs']
-_PER = {'quick': 14, 'thorough': 800}
+_PER = {'quick': 14, 'thorough': 4000}
 
 
 def attach_monitors():
